@@ -63,6 +63,10 @@ var ghost struct {
 	ioResAny int
 	ioFields int
 
+	// what the latest splitFirstAndRestLines call answered for the rest of the message (C09)
+	ioRestLines string
+	ioEol       bool
+
 	ioSeq int // the sources of attributes collectArgs has consulted so far, as decimal digits in call order: 1 context, 2 logger chain, 3 call arguments (C07)
 
 	ioFmt int // content identity of the string the latest fmt.Sprintf call returned (C10 WithSkip)
@@ -230,9 +234,10 @@ func specInterrupts() bool {
 //@   keeps ghost.cfPC, ghost.cfObj, ghost.cfFn, ghost.cfFile, ghost.cfLine, Source.Function, Source.File, Source.Line, PrintCtx.cachedSource, PrintCtx.off, PrintCtx.lvl, PrintCtx.msg, PrintCtx.kvps, PrintCtx.now, PrintCtx.stackFrame, PrintCtx.jsonMode, PrintCtx.noColor, PrintCtx.layout, PrintCtx.utcTime, PrintCtx.noQuoted, PrintCtx.dedupeAttrs
 
 //@ func (*PrintCtx).source
-//@   props C14
+//@   props C09 C14
 //@   inline
 //@   requires s != nil
+//@   ensures [C09.C14.decoded] ghost.cfPC == s.stackFrame && contentid(s.cachedSource.Function) == ghost.cfFn && s.cachedSource.Line == ghost.cfLine
 //@   assigns s.cachedSource.Function, s.cachedSource.File, s.cachedSource.Line, ghost.cfPC, ghost.cfObj, ghost.cfFn, ghost.cfFile, ghost.cfLine
 //@   at call runtime.CallersFrames assert [C14.decode] len(callee.callers) == 1 && callee.callers[0] == s.stackFrame
 
@@ -2294,6 +2299,46 @@ func specTellable(m LogWriter) bool {
 //@   ensures [C01.emits] ghost.emits >= old(ghost.emits)
 //@   at call (*Entry).printImpl assert [C02.C14.once] callee.s == s && callee.pc.lvl == lvl && callee.pc.msg == msg && callee.pc.now == timestamp && callee.pc.kvps == kvps && callee.pc.stackFrame == stackFrame
 
+// the continuation lines of the message are split off (and stored in the context) by printFirstLineOfMsg
+// on every path, from this record's own message
+//@ func (colorizeToolS).splitFirstAndRestLines
+//@   props C02 C09
+//@   auto
+//@   nokeeps ghost.ioRestLines, ghost.ioEol
+//@   posteffect ghost.ioRestLines = restLines
+//@   posteffect ghost.ioEol = eol
+
+//@ func (*Entry).printFirstLineOfMsg
+//@   props C02 C09
+//@   auto
+//@   nokeeps ghost.ioRestLines, ghost.ioEol, PrintCtx.restLines, PrintCtx.eol
+//@   keeps PrintCtx.restLines except pc
+//@   keeps PrintCtx.eol except pc
+//@   at call (colorizeToolS).splitFirstAndRestLines assert [C09.split-own] same(callee.str, pc.msg)
+//@   ensures [C09.split-stored] same(pc.restLines, ghost.ioRestLines) && pc.eol == ghost.ioEol
+
+// (hand-written: the attribute serializer and the value switch carry C07/C09 clauses)
+//@ func serializeAttrs
+//@   props C02 C07 C09
+//@   auto
+//@   nokeeps PrintCtx.prefix, PrintCtx.inGroupedMode
+//@   keeps PrintCtx.prefix except pc
+//@   keeps PrintCtx.inGroupedMode except pc
+//@   requires [C09.ungrouped] !pc.inGroupedMode
+//@   ensures [C09.prefix] same(pc.prefix, old(pc.prefix)) && !pc.inGroupedMode
+//@   at call slices.SortStableFunc[github.com/hedzr/logg/slog.Attrs github.com/hedzr/logg/slog.Attr] assert [C07.sorted] callee.x == kvps
+//@   at call github.com/hedzr/logg/slog.dedupeSlice[github.com/hedzr/logg/slog.Attrs github.com/hedzr/logg/slog.Attr] assert [C07.unique] callee.x == kvps
+//@   loop 1 invariant [C09.restore] same(pc.prefix, prefix) && !pc.inGroupedMode && same(prefix, old(pc.prefix))
+
+//@ func (*PrintCtx).appendValue
+//@   props C02 C09
+//@   auto
+//@   nokeeps PrintCtx.prefix, PrintCtx.inGroupedMode
+//@   keeps PrintCtx.prefix except s
+//@   keeps PrintCtx.inGroupedMode except s
+//@   requires [C09.ungrouped] !s.inGroupedMode
+//@   ensures [C09.ungrouped] !s.inGroupedMode
+
 // what the pool's New function builds is what the pool invariant (externals: sync.Pool Get/Put) promises
 //@ func newPrintCtx
 //@   props C09
@@ -2415,6 +2460,8 @@ func specTellable(m LogWriter) bool {
 
 
 
+
+
 // ---- generated by /verif/tools/gen_auto.py: synthesized contracts for the no-panic sweep of printImpl's call tree
 //@ func convertLevelToLogSlog
 //@   props C02
@@ -2468,30 +2515,9 @@ func specTellable(m LogWriter) bool {
 //@   props C02
 //@   auto
 
-//@ func serializeAttrs
-//@   props C02 C07 C09
-//@   auto
-//@   nokeeps PrintCtx.prefix, PrintCtx.inGroupedMode
-//@   keeps PrintCtx.prefix except pc
-//@   keeps PrintCtx.inGroupedMode except pc
-//@   requires [C09.ungrouped] !pc.inGroupedMode
-//@   ensures [C09.prefix] same(pc.prefix, old(pc.prefix)) && !pc.inGroupedMode
-//@   at call slices.SortStableFunc[github.com/hedzr/logg/slog.Attrs github.com/hedzr/logg/slog.Attr] assert [C07.sorted] callee.x == kvps
-//@   at call github.com/hedzr/logg/slog.dedupeSlice[github.com/hedzr/logg/slog.Attrs github.com/hedzr/logg/slog.Attr] assert [C07.unique] callee.x == kvps
-//@   loop 1 invariant [C09.restore] same(pc.prefix, prefix) && !pc.inGroupedMode && same(prefix, old(pc.prefix))
-
 //@ func (colorizeToolS).echoColorAndBg
 //@   props C02
 //@   auto
-
-//@ func (*PrintCtx).appendValue
-//@   props C02 C09
-//@   auto
-//@   nokeeps PrintCtx.prefix, PrintCtx.inGroupedMode
-//@   keeps PrintCtx.prefix except s
-//@   keeps PrintCtx.inGroupedMode except s
-//@   requires [C09.ungrouped] !s.inGroupedMode
-//@   ensures [C09.ungrouped] !s.inGroupedMode
 
 //@ func (*PrintCtx).appendTime
 //@   props C02
@@ -2642,14 +2668,6 @@ func specTellable(m LogWriter) bool {
 //@   auto
 
 //@ func (*PrintCtx).pcTryQuoteValue
-//@   props C02
-//@   auto
-
-//@ func (*Entry).printFirstLineOfMsg
-//@   props C02
-//@   auto
-
-//@ func (colorizeToolS).splitFirstAndRestLines
 //@   props C02
 //@   auto
 
